@@ -22,12 +22,17 @@
 #include <exception>
 #include <unistd.h>
 #include <signal.h>
+#include <fcntl.h>
 
 #include <instance.h>
 #include <functions.h>
 #include <value.h>
 #include <script/script_error.h>
 #include <util/strencodings.h>
+
+// Events go to a private descriptor: the code under test prints to stdout itself (e.g. "no stack history").
+static FILE* g_ev = nullptr;
+#define printf(...) fprintf(g_ev, __VA_ARGS__)
 
 static const char* errname(ScriptError e) {
     switch (e) {
@@ -285,10 +290,10 @@ static void enc(std::istringstream& is) {
 // tell the driver which input line was being processed, and leave.  The driver resumes after that job.
 static volatile long g_lineno = 0;
 static void on_crash(int sig) {
-    fflush(stdout);
+    fflush(g_ev);
     char buf[128];
     int n = snprintf(buf, sizeof buf, "{\"e\":\"Crashed\",\"sig\":%d}\n", sig);
-    if (write(1, buf, n) < 0) {}
+    if (write(fileno(g_ev), buf, n) < 0) {}
     n = snprintf(buf, sizeof buf, "CRASH line=%ld sig=%d\n", g_lineno, sig);
     if (write(2, buf, n) < 0) {}
     _exit(99);
@@ -296,7 +301,9 @@ static void on_crash(int sig) {
 
 int main(int argc, char** argv) {
     std::string line;
-    setvbuf(stdout, nullptr, _IOFBF, 1 << 20);
+    g_ev = fdopen(dup(1), "w");
+    setvbuf(g_ev, nullptr, _IOFBF, 1 << 20);
+    { int nul = open("/dev/null", O_WRONLY); if (nul >= 0) { dup2(nul, 1); close(nul); } }
     for (int sg : {SIGSEGV, SIGFPE, SIGABRT, SIGBUS, SIGILL}) signal(sg, on_crash);
     while (std::getline(std::cin, line)) {
         ++g_lineno;
@@ -315,6 +322,6 @@ int main(int argc, char** argv) {
             printf("{\"e\":\"HarnessException\",\"msg\":%s}\n", jstr(ex.what()).c_str());
         }
     }
-    fflush(stdout);
+    fflush(g_ev);
     return 0;
 }
